@@ -3,22 +3,6 @@
 use crate::common::*;
 use serde_json::Value;
 
-pub struct CheckDef {
-    pub id: &'static str,
-    pub level: &'static str,
-    pub generate: fn(u64, u64, Tier) -> Value,
-    pub exec: fn(&Value, &mut Trials) -> RunReport,
-    /// JSON pointer of the step list the shrinker reduces
-    pub steps: &'static str,
-    pub runs: fn(Tier) -> u64,
-    pub wall_cap_s: fn(Tier) -> u64,
-    pub rule: &'static str,
-    pub assumptions: &'static [&'static str],
-    pub real: &'static [&'static str],
-    pub stub: &'static [&'static str],
-    pub eval_unit: &'static str,
-}
-
 fn c01_gen(seed: u64, run: u64, tier: Tier) -> Value {
     serde_json::to_value(crate::c01::generate(seed, run, tier)).unwrap()
 }
